@@ -38,6 +38,8 @@ func main() {
 			genHost(seed, n, os.Args[5])
 		case "vis":
 			genVis(seed, n, os.Args[5])
+		case "scope":
+			genScope(seed, n, os.Args[5])
 		default:
 			fmt.Fprintln(os.Stderr, "unknown stream", os.Args[2])
 			os.Exit(2)
